@@ -22,6 +22,7 @@ type Query struct {
 	Cover   bool        // cover query: expected SAT (reachability); Goal is the condition to reach
 	Text    string      // clause text / operand text
 	Label   string      // clause label
+	Short   bool        // not claimed in the ledger: attempted with a short timeout on the primary solver only
 }
 
 type NamedTerm struct {
@@ -120,9 +121,11 @@ func (u *Unit) scriptH(solver string, idx []int, models bool, hints bool) string
 		isZ3 := strings.HasPrefix(solver, "z3")
 		if q.Cover && isZ3 {
 			sb.WriteString("(set-option :timeout 2000)\n")
+		} else if q.Short && isZ3 {
+			sb.WriteString("(set-option :timeout 3000)\n")
 		}
 		fmt.Fprintf(&sb, "(assert %s)\n(echo \"Q%d\")\n(check-sat)\n", g, qi)
-		if q.Cover && isZ3 {
+		if (q.Cover || q.Short) && isZ3 {
 			fmt.Fprintf(&sb, "(set-option :timeout %d)\n", u.timeoutMs)
 		}
 		if models && len(vals) > 0 {
@@ -241,7 +244,7 @@ func (u *Unit) Solve(order []string, timeoutMs, seed int, agree bool, dumpDir st
 				}
 				r.Detail += fmt.Sprintf(" [solver disagreement: %v]", r.Answers)
 			}
-			if agree || !decided {
+			if (agree || !decided) && !q.Short {
 				next = append(next, qi)
 			}
 		}
